@@ -61,6 +61,14 @@ def registry_case(rng, plan):
     cevs, results = [], []
     for ev in events:
         mi, ci = ev
+        if ci == "import":
+            # the module is imported the ordinary way (not through a tag): its classes register themselves
+            if mi not in imported:
+                imported.add(mi)
+                importlib.import_module(f"{pkg}.mod{mi}")
+                for cname, _ in mods[mi]:
+                    cevs.append(("D", ids[f"{pkg}.mod{mi}.{cname}"]))
+            continue
         if ci == "missing":
             tag = f"{pkg}.mod{mi}.Nope"
             known, tagid = False, 99
@@ -97,7 +105,8 @@ def gen_registry_plans(tier, rng):
     ]
     n = 3 if tier == "quick" else 4
     for mods in shapes:
-        targets = [(mi, ci) for mi, cl in enumerate(mods) for ci in range(len(cl))] + [(0, "missing"), (0, "nomodule")]
+        targets = ([(mi, ci) for mi, cl in enumerate(mods) for ci in range(len(cl))] + [(0, "missing"), (0, "nomodule")] +
+                   [(mi, "import") for mi in range(len(mods))])
         for seq in itertools.product(targets, repeat=n):
             plans.append((mods, list(seq)))
     rng.shuffle(plans)
